@@ -102,7 +102,7 @@ struct Ctx {
        c_restart_oneshot_cb = false, c_destroy_cb = false, c_new_cb = false, c_restart_other_cb = false, c_huge = false,
        c_exact = false, c_minus1 = false, c_dis_self_persist = false, c_en_other_cb = false, c_oneshot_fired = false,
        c_persist_fired = false, c_grace = false, c_cleanup = false, c_reenable = false, c_same_pass_multi = false,
-       c_dis_due_outside = false, c_heap_middle = false, c_reinit_self_cb = false;
+       c_heap_middle = false, c_reinit_self_cb = false;
 
   Ctx(const Scenario &s, CaseInfo &i) : scn(s), info(i) {}
 
@@ -185,7 +185,7 @@ struct Ctx {
       int earlier = 0, later = 0;
       for (auto &p : ts) if (p->alive && p->enabled && p.get() != &x) { if (p->deadline < x.deadline) ++earlier; else if (p->deadline > x.deadline) ++later; }
       if (earlier && later) c_heap_middle = true;
-    } else if (cur_cb < 0) c_dis_due_outside = true;
+    }
   }
 
   // isEnabled() of every live TimerEvent agrees with the model
@@ -354,7 +354,6 @@ struct Ctx {
 
   // applies the operations up to and including the next clock advance; true = advanced, false = out of operations or failed
   bool applyOps() {
-    uint64_t n = now();
     while (ip < scn.ops.size()) {
       const Op &op = scn.ops[ip++];
       std::vector<T*> al = aliveList();
@@ -446,7 +445,6 @@ struct Ctx {
     info.cls_if(c_en_other_cb, "enable_other_in_callback");
     info.cls_if(c_restart_other_cb, "restart_other_in_callback");
     info.cls_if(c_reinit_self_cb, "reinit_self_in_callback");
-    info.cls_if(c_dis_due_outside, "due_timer_disabled_outside_before_its_pass");
     info.cls_if(c_huge, "huge_jump_with_enabled_timers");
     info.cls_if(c_exact, "advance_exactly_to_deadline");
     info.cls_if(c_minus1, "advance_to_deadline-1");
